@@ -151,6 +151,12 @@ func c01Sinks() []c01Sink {
 		{name: "fn-arg-attr", attr: "title", tpl: func(a, b string) string { return `<p data-m="1" :title="string(v)">t</p><p>after</p>` }},
 		{name: "fn-arg-v-text", tpl: func(a, b string) string { return `<div v-for="x in vs"><p data-m="1" v-text="string(x)">old</p></div><p>after</p>` }},
 		{name: "fn-arg-piped", tpl: func(a, b string) string { return `<p data-m="1">` + a + `{{ v | string | default(v) }}` + b + `</p><p>after</p>` }},
+		// a bound attribute written with a mustache: the interpolated text is the value, not a path to resolve once more
+		{name: "attr-bound-mustache", attr: "title", tpl: func(a, b string) string { return `<p data-m="1" :title="{{ v }}">t</p><p>after</p>` }},
+		{name: "attr-bound-mustache-mixed", attr: "title", tpl: func(a, b string) string { return `<p data-m="1" v-bind:title="{{ v }}">t</p><p>after</p>` }},
+		{name: "include-bound-mustache-prop", files: comp2, last: true, tpl: func(a, b string) string {
+			return `<template include="comp.vuego" :u="{{ v }}"></template>`
+		}},
 		{name: "pre-direct", tpl: func(a, b string) string { return `<pre data-m="1">` + a + `{{ v }}` + b + `</pre><p>after</p>` }},
 		{name: "pre-direct-loop", tpl: func(a, b string) string { return `<div v-for="x in vs"><pre data-m="1">` + a + `{{ x }}` + b + `</pre></div><p>after</p>` }},
 		{name: "textarea-in-branch", tpl: func(a, b string) string { return `<form v-if="yes"><textarea data-m="1" name="bio">` + a + `{{ v }}` + b + `</textarea></form><p>after</p>` }},
@@ -424,12 +430,14 @@ func runC01(r *Run) {
 				dec := func(s string) string { return stdhtml.UnescapeString(s) }
 				want := dec(nb[0]) + v + dec(nb[1])
 				switch sk.name {
-				case "fn-arg-attr", "fn-arg-v-text":
+				case "fn-arg-attr", "fn-arg-v-text", "attr-bound-mustache", "attr-bound-mustache-mixed":
 					want = v
 				case "v-text", "attr-bound", "for-child-attr", "include-bound-prop-attr", "chain-branch-v-text", "slot-twice-include-prop-attr", "pre-v-text", "pre-v-text-loop", "pre-attr-bound", "textarea-v-text":
 					want = v
 				case "attr-bound-class-merge":
 					want = "k " + v
+				case "include-bound-mustache-prop":
+					want = "[" + v + "]"
 				case "include-static-prop", "include-bound-prop", "slot-twice-include-prop", "slot-in-loop-include-prop", "include-in-loop", "include-nested-prop", "layout-variable":
 					want = "[" + v + "]"
 				case "for-root":
@@ -441,10 +449,10 @@ func runC01(r *Run) {
 				if sk.name == "rawtext-include-prop" && strings.TrimSpace(v) == "" {
 					want = sink
 				}
-				if sk.attr != "" && strings.TrimSpace(v) == "" && (sk.name == "attr-bound" || sk.name == "fn-arg-attr" || sk.name == "pre-attr-bound" || sk.name == "for-child-attr" || sk.name == "for-root" || sk.name == "include-bound-prop-attr") {
+				if sk.attr != "" && strings.TrimSpace(v) == "" && (sk.name == "attr-bound" || sk.name == "attr-bound-mustache" || sk.name == "attr-bound-mustache-mixed" || sk.name == "fn-arg-attr" || sk.name == "pre-attr-bound" || sk.name == "for-child-attr" || sk.name == "for-root" || sk.name == "include-bound-prop-attr") {
 					want = sink // a falsy bound value omits the attribute (C14)
 				}
-				if sk.name == "include-bound-prop" || sk.name == "include-bound-prop-attr" || sk.name == "slot-prop" || sk.name == "slot-twice-include-prop" || sk.name == "slot-twice-include-prop-attr" || sk.name == "include-in-loop" || sk.name == "include-nested-prop" {
+				if sk.name == "include-bound-mustache-prop" || sk.name == "include-bound-prop" || sk.name == "include-bound-prop-attr" || sk.name == "slot-prop" || sk.name == "slot-twice-include-prop" || sk.name == "slot-twice-include-prop-attr" || sk.name == "include-in-loop" || sk.name == "include-nested-prop" {
 					if strings.TrimSpace(v) == "" {
 						want = sink // falsy props are not passed
 					}
